@@ -174,10 +174,11 @@ theorem C20_back_link_resolves (t : CType) :
   have h4 : indexPage ≠ ['.', '.'] := by decide
   simp [h1, h2, h4, resolveSegs, typePagePath, nsPagePath]
 
-/-- Every `href=` in the templates has one of the recognised forms, and the link prefix parameter is only ever
+/-- Every `href=` in the templates has one of the recognised forms; a type reference is only emitted for types
+that have an entry of their own (guard `t.short_name != "_"`); the link prefix parameter is only ever
 `"../" * T.full_name.count(".")` (at the root call) or passed through. -/
 theorem C20_href_forms_recognised :
-    (∀ h ∈ HtmlTpl.hrefs, hrefFormOk h.2 = true) ∧ (∀ b ∈ HtmlTpl.bindings, upBindingOk b = true) := by decide
+    (∀ h ∈ HtmlTpl.hrefs, hrefFormOk h.2.1 h.2.2 = true) ∧ (∀ b ∈ HtmlTpl.bindings, upBindingOk b = true) := by decide
 
 /-! ## Non-vacuity -/
 
@@ -237,7 +238,10 @@ example : (splitFragment (urlFromTypeBeforeFix ⟨["ns".toList, "S".toList, "Req
     "ns_S_Request_1_0".toList ∧
     tagId (CType.entry ⟨["ns".toList, "S".toList, "Request".toList], 1, 0, true⟩) = "ns_S_1_0".toList := by decide
 
+/-- A field of a doc-holder type (`ns._.0.1`) was linked to an entry that no page has. -/
+example : hrefFormOk ["nested"] [.ex "up", .ex "t|url_from_type"] = false := by decide
+
 /-- The back link of every type page was the constant `/reg/Namespace.html`. -/
-example : hrefFormOk [.lit "/reg/Namespace.html"] = false := by decide
+example : hrefFormOk [] [.lit "/reg/Namespace.html"] = false := by decide
 
 end NunavutVerif.Html
